@@ -204,9 +204,13 @@ def _get_active_backend(
                 f"joblib backend instead of {backend.__class__.__name__} "
                 "as the latter does not provide shared memory semantics."
             )
-        # Force to n_jobs=1 by default
         thread_config = backend_config.copy()
-        thread_config["n_jobs"] = 1
+        if explicit_backend:
+            # The number of jobs set along with the backend that is being
+            # replaced is not meaningful for the thread-based fallback: force
+            # n_jobs=1 by default. When no backend was selected, the n_jobs
+            # set by the context manager still applies.
+            thread_config["n_jobs"] = 1
         return sharedmem_backend, thread_config
 
     if force_processes:
